@@ -4,7 +4,7 @@ from symx.lib import *  # noqa
 
 META = {
     "bounds": {
-        "quick": "shapes of <=2 notes (+TS/KS), waits 1..24, pad n 0..120, cutoff m 1..40 r 0..m, scale k in 1..8 (concrete), channel 0..15",
+        "quick": "shapes of <=2 notes (+TS/KS, also signatures that repeat the one in force and adjacent waits), waits 1..24, pad n 0..120, cutoff m 1..40 r 0..m, scale k in 1..8 (concrete), channel 0..15",
         "thorough": "shapes of <=3 notes (+TS/KS), waits 1..32, pad n 0..200, cutoff m 1..64, scale k 1..8, channel 0..15",
     },
     "outside_claim": ["more than 3 notes", "scale with quantise_afterwards=True (a different contract)",
@@ -18,6 +18,8 @@ SHAPES = {
     "n2ov": ["W", ("ON", 0), "W", ("ON", 1), "W", ("OFF", 0), "W", ("OFF", 1)],
     "n2seq": [("ON", 0), "W", ("OFF", 0), ("ON", 1), "W", ("OFF", 1), "W"],
     "n2sig": [("TS", 3, 4), ("KS", KEYS[1]), ("ON", 0), "W", ("OFF", 0), "W", ("TS", 4, 4), ("ON", 1), "W", ("OFF", 1)],
+    "n2rep": [("TS", 4, 4), ("KS", KEYS[6]), ("ON", 0), "W", ("OFF", 0), "W", ("TS", 4, 4), ("ON", 1), "W", ("OFF", 1),
+              ("KS", KEYS[6]), "W", "W"],
     "n3": [("ON", 0), "W", ("ON", 1), "W", ("OFF", 0), ("ON", 2), "W", ("OFF", 1), "W", ("OFF", 2), "W"],
 }
 
@@ -129,7 +131,7 @@ def q_set_channel(shape, wmax, fresh):
 def queries(tier, seed):
     qs = []
     if tier == "quick":
-        shapes = ["n1t", "n1", "n2ov", "n2seq", "n2sig"]
+        shapes = ["n1t", "n1", "n2ov", "n2seq", "n2sig", "n2rep"]
         wmax, nmax, mmax = 24, 120, 40
     else:
         shapes = list(SHAPES)
